@@ -126,6 +126,20 @@ CLAIMED["C20"] = dict(
          "interner keys (shared interner); numbers are compared by bit pattern.",
     technique="TLC-enumerated value/type universe; round trips through the real encoders validated against a TLA+ channel contract",
 )
+CLAIMED["C17"] = dict(
+    category="model_checking",
+    text="Modules.tla fixes a small module scope (module m with two members and a nested module, a sibling module that may "
+         "re-export, a module that re-exports from its own submodule) and the resolution function the language promises "
+         "(definition denoted by the path, or refusal for private / unknown members; local bindings shadow imports). TLC "
+         "enumerates every combination of pub flags x re-export x reference form (qualified path, use, multi-import, wildcard, "
+         "re-export, shadowed import, facade) x position (root, sibling module, inside the module): exhaustive small scope. "
+         "Each case is rendered as a program and replayed on both back ends: refused with a diagnostic iff the specification "
+         "says so, otherwise dsp must return the constant of the denoted definition.",
+    design_ref="DESIGN.md §6 C17",
+    note="Inline modules only (no file modules). Whether an import of an invisible member that is never used must itself be "
+         "refused is left open by the property: both answers are accepted there.",
+    technique="TLA+ resolution function over an exhaustively enumerated small module scope; cases replayed on both back ends",
+)
 NOT_YET = {}
 
 checks = []
